@@ -73,6 +73,14 @@ def rejection_ops(rng, L):
     out.append(("incompat.source_as_child", {"op": "add_comp", "parent": p, "comp": ce("Source", fresh())}))
     out.append(("incompat.list_parent_nonmux", {"op": "add_comp", "parent": [p], "comp": ce("Converter", fresh())}))
     out.append(("incompat.duplicate_parents", {"op": "add_comp", "parent": [p, p], "comp": ce("PMux", fresh())}))
+    if rails and not muxes:
+        owner = rng.choice([n for n in names if L["rails"].get(n)])
+        others2 = [n for n in nonload if n != owner]
+        al = [owner, L["rails"][owner]] + ([rng.choice(others2)] if others2 else [])
+        rng.shuffle(al)
+        # the same input named twice through its component name and its rail name (accepted or rejected - either way
+        # the call must be atomic)
+        out.append(("alias.duplicate_parents", {"op": "add_comp", "parent": al, "comp": ce("PMux", fresh())}))
     if muxes:
         out.append(("incompat.second_mux", {"op": "add_comp", "parent": [p], "comp": ce("PMux", fresh())}))
         out.append(("incompat.mux_to_nonmux", {"op": "change_comp", "name": muxes[0], "comp": ce("PSwitch", muxes[0])}))
